@@ -1,20 +1,48 @@
 pub mod c01;
 pub mod c02;
+pub mod c03;
+pub mod c04;
+pub mod c05;
+pub mod c06;
+pub mod c07;
+pub mod c08;
 pub mod c09;
 pub mod c10;
+pub mod c11;
+pub mod c12;
+pub mod c13;
+pub mod c14;
+pub mod c15;
+pub mod c16;
+pub mod c17;
+pub mod c18;
 pub mod c19;
 pub mod c20;
 
 use crate::ctx::Ctx;
 
-pub fn run(check: &str, ctx: &mut Ctx, _args: &[String]) -> bool {
+pub fn run(check: &str, ctx: &mut Ctx, args: &[String]) -> bool {
     match check {
         "c01" => c01::run(ctx),
         "c02" => c02::run(ctx),
+        "c03" => c03::run(ctx),
+        "c04" => c04::run(ctx),
+        "c05" => c05::run(ctx),
+        "c06" => c06::run(ctx),
+        "c07" => c07::run(ctx),
+        "c08" => c08::run(ctx),
         "c09" => c09::run(ctx),
         "c10" => c10::run(ctx),
+        "c11" => c11::run(ctx),
+        "c12" => c12::run(ctx),
+        "c13" => c13::run(ctx),
+        "c14" => c14::run(ctx),
+        "c15" => c15::run(ctx),
+        "c16" => c16::run(ctx),
+        "c17" => c17::run(ctx),
+        "c18" => c18::run(ctx),
         "c19" => c19::run(ctx),
-        "c20" => c20::run(ctx, _args),
+        "c20" => c20::run(ctx, args),
         _ => return false,
     }
     true
@@ -25,8 +53,22 @@ pub fn replay(check: &str, j: &serde_json::Value) -> bool {
     match check {
         "c01" => c01::replay(j),
         "c02" => c02::replay(j),
+        "c03" => c03::replay(j),
+        "c04" => c04::replay(j),
+        "c05" => c05::replay(j),
+        "c06" => c06::replay(j),
+        "c07" => c07::replay(j),
+        "c08" => c08::replay(j),
         "c09" => c09::replay(j),
         "c10" => c10::replay(j),
+        "c11" => c11::replay(j),
+        "c12" => c12::replay(j),
+        "c13" => c13::replay(j),
+        "c14" => c14::replay(j),
+        "c15" => c15::replay(j),
+        "c16" => c16::replay(j),
+        "c17" => c17::replay(j),
+        "c18" => c18::replay(j),
         "c19" => c19::replay(j),
         "c20" => c20::replay(j),
         _ => {
